@@ -326,6 +326,15 @@ def known_witnesses(ctx, pp):
         ctx.fail_input("TypeError escapes parse_string", {"program": "f = pyparsing_common.mixed_integer.copy(); match_previous_literal(f); SkipTo(f)",
                        "input": "x 1"}, "no TypeError", f"TypeError: {ex}", theorem="C06 statement (oracle)",
                        signature="call_during_try_spreads")
+    # pyparsing_common.ieee_float: (?i:...) lets U+0131 / U+0130 match the 'i' of inf / infinity, float() then rejects the text
+    try:
+        pp.pyparsing_common.ieee_float.parse_string("\u0131nf", parse_all=True)
+    except pp.ParseBaseException:
+        pass
+    except ValueError as ex:
+        ctx.fail_input("ValueError escapes parse_string", {"program": "pyparsing_common.ieee_float", "input": "\u0131nf"},
+                       "ParseException or a float", f"ValueError: {ex}", theorem="C06 statement (oracle)",
+                       signature="ieee_float_dotless_i")
     # regression (fixed): SkipTo.ignore() returned None, so composites built by chaining received None
     chained = pp.SkipTo(pp.Literal("a")).ignore(pp.Literal("#"))
     if chained is None:
